@@ -276,7 +276,7 @@ func c13RunOperatorCase(r *Run, c *Case, init map[int]c13Obj, xs []*c13Exec, sch
 			if x.done != nil {
 				select {
 				case <-x.done:
-				case <-time.After(30 * time.Second):
+				case <-time.After(20 * time.Second):
 				}
 			}
 		}
